@@ -15,6 +15,7 @@
 //   enc  <id> <value>                -> ok <size> <hex|->
 //   encu <id> <value>                -> ok <size> <hex of the SORTED bytes>   (types with unordered containers)
 //   enc2 <id> <value1> <value2>      -> ok <size> <hex|->       (same object serialized, mutated, serialized again)
+//   enc2u …                          -> like enc2, bytes printed sorted (types with unordered containers)
 //   pb   <id> <value>                -> ok <hex of PROTOBUF's encoding>   (A1, A5, A6: structs of the documented-compatible
 //                                       kinds; protobuf's writer / generic parser as independent oracle both ways)
 //   rt   <id> <value> <pres>         -> ok <value parsed back>  (serialize, parse through <pres> into a fresh object)
@@ -261,6 +262,19 @@ struct N3 { AGG std::unique_ptr<N2> n; int8_t k {0}; BABYLON_SERIALIZABLE((n, 1)
 struct N4 { AGG std::vector<N3> r; BABYLON_SERIALIZABLE((r, 1)); template <class F> void members(F&& f) { f(1, r); } };
 struct N5 { AGG N4 n; std::string t; BABYLON_SERIALIZABLE((n, 3)(t, 1)); template <class F> void members(F&& f) { f(3, n); f(1, t); } };
 struct N6 { AGG std::shared_ptr<N5> n; std::vector<N5> r; BABYLON_SERIALIZABLE((n, 1)(r, 2)); template <class F> void members(F&& f) { f(1, n); f(2, r); } };
+// a size-CACHED aggregate usable as a set element / map key
+struct K1 {
+  AGG int32_t id {0};
+  std::vector<int32_t> v;
+  BABYLON_SERIALIZABLE((id, 1)(v, 2));
+  template <class F> void members(F&& f) { f(1, id); f(2, v); }
+  bool operator==(const K1& o) const { return id == o.id && v == o.v; }
+};
+struct K1Hash {
+  size_t operator()(const K1& k) const noexcept { size_t h = size_t(k.id); for (auto x : k.v) h = h * 31 + size_t(x); return h; }
+};
+// an aggregate that is TRIVIAL only because its pointer member inherits TRIVIAL from float
+struct PT { AGG std::unique_ptr<float> p; BABYLON_SERIALIZABLE((p, 1)); template <class F> void members(F&& f) { f(1, p); } };
 // ---- shapes recorded as known findings ---------------------------------------------------------
 struct D1 {  // non-empty default member initialisers
   AGG std::string s {"abc"};
@@ -380,22 +394,22 @@ template <class T, size_t N> struct C<T[N]> {
     return "[" + join(o) + "]";
   }
 };
-template <class T> struct C<std::unordered_set<T>> {
+template <class T, class H> struct C<std::unordered_set<T, H>> {
   static std::string desc() { return "set(" + C<T>::desc() + ")"; }
-  static void fill(std::unordered_set<T>& v, const Node& n) {
+  static void fill(std::unordered_set<T, H>& v, const Node& n) {
     v.clear();
     for (auto& k : n.kids) { T x {}; C<T>::fill(x, k); v.emplace(std::move(x)); }
   }
-  static std::string show(const std::unordered_set<T>& v, bool norm) {
+  static std::string show(const std::unordered_set<T, H>& v, bool norm) {
     std::vector<std::string> o;
     for (auto& x : v) o.push_back(C<T>::show(x, norm));
     std::sort(o.begin(), o.end());
     return "[" + join(o) + "]";
   }
 };
-template <class K, class V> struct C<std::unordered_map<K, V>> {
+template <class K, class V, class H> struct C<std::unordered_map<K, V, H>> {
   static std::string desc() { return "map(" + C<K>::desc() + "," + C<V>::desc() + ")"; }
-  static void fill(std::unordered_map<K, V>& v, const Node& n) {
+  static void fill(std::unordered_map<K, V, H>& v, const Node& n) {
     v.clear();
     for (auto& k : n.kids) {
       if (k.kind != ':') throw ParseError();
@@ -404,7 +418,7 @@ template <class K, class V> struct C<std::unordered_map<K, V>> {
       v.emplace(std::move(x), std::move(y));
     }
   }
-  static std::string show(const std::unordered_map<K, V>& v, bool norm) {
+  static std::string show(const std::unordered_map<K, V, H>& v, bool norm) {
     std::vector<std::string> o;
     for (auto& x : v) o.push_back(C<K>::show(x.first, norm) + ":" + C<V>::show(x.second, norm));
     std::sort(o.begin(), o.end());
@@ -759,6 +773,26 @@ static const std::vector<std::pair<std::string, Entry>>& table() {
       {"A1", entry<A1>()}, {"A2", entry<A2>()}, {"A3", entry<A3>()}, {"A4", entry<A4>()}, {"A5", entry<A5>()},
       {"A6", entry<A6>()}, {"A7", entry<A7>()}, {"A8", entry<A8>()}, {"A9", entry<A9>()}, {"N6", entry<N6>()},
       {"VA5", entry<std::vector<A5>>()}, {"PA2", entry<std::unique_ptr<A2>>()},
+      // top-level containers / pointers whose element (key, value) is a size-CACHED aggregate (A1, A4, K1), a COMPLEX
+      // non-cached type (vector, list, hand-written Custom), a SIMPLE non-cached aggregate (N1) or TRIVIAL (A5, double):
+      // the trait SERIALIZED_SIZE_CACHED of the container decides whether serialize_to_string calculates first
+      {"MstrA1", entry<std::unordered_map<std::string, A1>>()}, {"MK1i32", entry<std::unordered_map<K1, int32_t, K1Hash>>()},
+      {"MK1A4", entry<std::unordered_map<K1, A4, K1Hash>>()}, {"Mi32A5", entry<std::unordered_map<int32_t, A5>>()},
+      {"Mstrf64", entry<std::unordered_map<std::string, double>>()},
+      {"MstrPA1", entry<std::unordered_map<std::string, std::unique_ptr<A1>>>()},
+      {"Mi32Cu", entry<std::unordered_map<int32_t, Custom>>()}, {"MstrN1", entry<std::unordered_map<std::string, N1>>()},
+      {"MstrLi32", entry<std::unordered_map<std::string, std::list<int32_t>>>()},
+      {"SK1", entry<std::unordered_set<K1, K1Hash>>()}, {"VA1", entry<std::vector<A1>>()}, {"VA4", entry<std::vector<A4>>()},
+      {"VN1", entry<std::vector<N1>>()}, {"VCu", entry<std::vector<Custom>>()}, {"LA1", entry<std::list<A1>>()},
+      {"LA5", entry<std::list<A5>>()}, {"RA1", entry<A1[2]>()}, {"RA5", entry<A5[2]>()},
+      {"PA1", entry<std::unique_ptr<A1>>()}, {"QA4", entry<std::shared_ptr<A4>>()},
+      {"VMstrA1", entry<std::vector<std::unordered_map<std::string, A1>>>()},
+      {"PMstrA1", entry<std::unique_ptr<std::unordered_map<std::string, A1>>>()},
+      // smart pointers to TRIVIAL types inside vector / T[N] / a TRIVIAL aggregate (candidate finding: the pointer is
+      // declared TRIVIAL, its size is not value-independent)
+      {"VPf32", entry<std::vector<std::unique_ptr<float>>>()}, {"VPA5", entry<std::vector<std::unique_ptr<A5>>>()},
+      {"VQA5", entry<std::vector<std::shared_ptr<A5>>>()}, {"VPT", entry<std::vector<PT>>()},
+      {"RPf64", entry<std::unique_ptr<double>[2]>()},
       // known-finding shapes
       {"D1", entry<D1>()}, {"B1", entry<B1>()}, {"VPi32", entry<std::vector<std::unique_ptr<int32_t>>>()},
       {"RPi32", entry<ArrP3>()},
@@ -813,6 +847,7 @@ static std::string run_line(const std::vector<std::string>& w) {
     if (w[0] == "pb" && w.size() == 3) return e->pb(parse_value(w[2]));
     if (w[0] == "encu" && w.size() == 3) return sort_hex(e->enc(parse_value(w[2])));
     if (w[0] == "enc2" && w.size() == 4) return e->enc2(parse_value(w[2]), parse_value(w[3]));
+    if (w[0] == "enc2u" && w.size() == 4) return sort_hex(e->enc2(parse_value(w[2]), parse_value(w[3])));
     Pres p;
     std::string in;
     if (w[0] == "rt" && w.size() == 4) {
